@@ -21,7 +21,7 @@ func init() {
 // sessionDigest prints the digest of one parse (used to compare across processes).
 func sessionDigest(args []string) (*Summary, error) {
 	res, errs, _, _ := sess.Parse(args[0], sess.NewObj(args[1]))
-	fmt.Printf("DIGEST %s %s\n", res, errs)
+	fmt.Printf("\nDIGEST %s %s\n", res, errs) // on a line of its own: the library prints to stdout without a newline
 	return &Summary{Counters: map[string]int{}}, nil
 }
 
